@@ -36,7 +36,7 @@ import (
 	"github.com/dolthub/dolt/go/zzverif/vh"
 )
 
-const c10Rule = "stores: local table-file store with one table file (2..14 small chunks committed through Put/Commit) plus one archive (2..10 chunks, snappy and zstd-with-dictionary records, added through WriteTableFile+AddTableFilesToManifest), archive indexes heap or mmap; journal store with 2..4 acknowledged commits. For each target file of {table file, archive, manifest, journal}: every single-byte corruption (each offset x {^0x01, ^0x80, 0x00, 0xff}, skipped when the byte would not change) and every truncation length (all for files <= 4 KiB, 4000 sampled offsets beyond), then open + Root + Count + Has/Get of every stored address + GetMany + IterateAllChunks under recover(). Violation: a panic, or data under a stored address that differs from what was stored, or (manifest/journal) a silently different root than an acknowledged one the corruption could not have touched. Non-trivial variant: the corrupted byte / cut lies in index, footer, metadata, manifest or journal bytes (not chunk payload) of a file with >= 2 chunks. Distinct by (store content hash, file kind, offset, variant)."
+const c10Rule = "stores: local table-file store with one table file (2..6 (thorough 14) small chunks committed through Put/Commit) plus one archive (2..6 (thorough 10) chunks, snappy and zstd-with-dictionary records, added through WriteTableFile+AddTableFilesToManifest), archive indexes heap or mmap; journal store with 2..4 acknowledged commits. For each target file of {table file, archive, manifest, journal}: every single-byte corruption (each offset x {^0x01, ^0x80, 0x00, 0xff}, skipped when the byte would not change) and every truncation length (all for files <= 4 KiB, 4000 sampled offsets beyond), then open + Root + Count + Has/Get of every stored address + GetMany + IterateAllChunks under recover(). Violation: a panic, or data under a stored address that differs from what was stored, or (manifest/journal) a silently different root than an acknowledged one the corruption could not have touched. Non-trivial variant: the corrupted byte / cut lies in index, footer, metadata, manifest or journal bytes (not chunk payload) of a file with >= 2 chunks. Distinct by (store content hash, file kind, offset, variant)."
 
 // verifQuota refuses absurd allocation requests the way a memory-limited deployment would; a
 // corrupted 32-bit count otherwise turns into a multi-GiB allocation that the driver's address
@@ -180,7 +180,7 @@ func (e *c10Env) runVariant(off int, variant string, mutated []byte) (outcome, v
 	if err := e.restore(c.Target, mutated); err != nil {
 		return "env", ""
 	}
-	ctx, cancel := context.WithTimeout(context.Background(), 5*time.Second)
+	ctx, cancel := context.WithTimeout(context.Background(), 60*time.Second)
 	defer cancel()
 	var st *NomsBlockStore
 	stage := "open"
@@ -303,7 +303,7 @@ func (e *c10Env) runVariant(off int, variant string, mutated []byte) (outcome, v
 	}
 
 	stage = "IterateAllChunks"
-	{
+	if variant == "xor80" || variant == "trunc" || variant == "zero" {
 		var bad string
 		err := st.IterateAllChunks(ctx, func(ch chunks.Chunk) {
 			// iteration reports (address from the index, content) pairs for integrity checkers to
@@ -463,7 +463,7 @@ func (e *c10Env) enumerate(rt *rapid.T, t *testing.T, rec *vh.Recorder, id strin
 			region, nontrivial := e.region(off)
 			rec.Case(fmt.Sprintf("%s %s off=%d/%d %s", id, e.c.Kind, off, len(orig), v), nontrivial, e.c.Kind+":"+outcome, e.c.Kind+":region="+region)
 			if outcome == "timeout" {
-				vh.Inconclusive(rt, "a read on a corrupted %s did not finish within 5s (off=%d %s)", e.c.Kind, off, v)
+				vh.Inconclusive(rt, "a read on a corrupted %s did not finish within 60s (off=%d %s)", e.c.Kind, off, v)
 			}
 			if viol != "" {
 				if known := c10Known(e.c.Kind, outcome, viol); known != "" {
@@ -472,13 +472,10 @@ func (e *c10Env) enumerate(rt *rapid.T, t *testing.T, rec *vh.Recorder, id strin
 					continue
 				}
 				violations++
-				if violations <= 3 {
+				sig := e.c.Kind + ":" + outcome + ":" + c10TopFrame(viol)
+				if _, dup := c10Reported.LoadOrStore(sig, true); !dup {
 					vh.NoteViolation(t.Name(), "", string(e.caseJSON(off, v)))
 					t.Errorf("C10 %s %s off=%d variant=%s (region %s): %s", e.c.Kind, e.c.Target, off, v, region, viol)
-				}
-				if violations >= 12 {
-					_ = os.Remove("current_case.json")
-					return
 				}
 			}
 		}
@@ -486,6 +483,23 @@ func (e *c10Env) enumerate(rt *rapid.T, t *testing.T, rec *vh.Recorder, id strin
 	_ = os.Remove("current_case.json")
 	_ = e.restore(e.c.Target, orig)
 	return
+}
+
+var c10Reported sync.Map
+
+// c10TopFrame names the first dolt function in a recovered panic's stack (the signature of a
+// crash), "" for non-panic violations.
+func c10TopFrame(viol string) string {
+	for _, ln := range strings.Split(viol, "\n") {
+		ln = strings.TrimSpace(ln)
+		if strings.HasPrefix(ln, "github.com/dolthub/dolt/go/") && !strings.Contains(ln, "/store/d.") && !strings.Contains(ln, "c10Env") {
+			if i := strings.LastIndex(ln, "("); i > 0 {
+				ln = ln[:i]
+			}
+			return strings.TrimPrefix(ln, "github.com/dolthub/dolt/go/")
+		}
+	}
+	return ""
 }
 
 // Known findings (listed centrally in known_findings.json with status "open") are identified by
@@ -564,7 +578,7 @@ func c10BuildLocal(rt *rapid.T, dir string) (*c10Case, string, string) {
 		}
 		return out
 	}
-	tcs := shrink(c10SmallSet(rt, "t", set, rapid.IntRange(2, 14).Draw(rt, "ntable")))
+	tcs := shrink(c10SmallSet(rt, "t", set, rapid.IntRange(2, vh.N(6, 14)).Draw(rt, "ntable")))
 	for _, ch := range tcs {
 		if err := st.Put(ctx, ch.C(), verifNoRefs); err != nil {
 			rt.Fatalf("Put: %v", err)
@@ -578,7 +592,7 @@ func c10BuildLocal(rt *rapid.T, dir string) (*c10Case, string, string) {
 	for _, sp := range st.upstream.specs {
 		tableName = sp.name.String()
 	}
-	acs := shrink(c10SmallSet(rt, "a", set, rapid.IntRange(2, 10).Draw(rt, "narchive")))
+	acs := shrink(c10SmallSet(rt, "a", set, rapid.IntRange(2, vh.N(6, 10)).Draw(rt, "narchive")))
 	seenAddr := map[hash.Hash]bool{}
 	for _, ch := range tcs {
 		seenAddr[ch.Addr] = true
@@ -737,20 +751,24 @@ func c10Replay(t *testing.T, path string) {
 	}
 }
 
-func TestVerif_C10(t *testing.T) {
+var c10Assumptions = []string{
+	"allocation requests above 256 MiB are refused by the harness' MemoryQuotaProvider (a corrupted 32-bit count otherwise becomes a multi-GiB allocation that the driver's address-space limit turns into a runtime abort unrelated to the parser)",
+	"table files and archives carry no checksum over their index: a corrupted address byte makes a stored chunk unreachable (reported absent) without any error; this is recorded as class silent_absent and is not a violation for those two file kinds; it is one for manifest and journal corruption, where acknowledged data must not vanish silently",
+	"IterateAllChunks reports (index address, content) pairs for integrity checkers to verify; a pair under a never-stored address is not counted, wrong bytes under a stored address are",
+	"journal: a corruption at offset o may only lose commits whose records end after o (torn-tail semantics, C03); losing an earlier acknowledged commit without an error is a violation",
+	"chunk payloads are cut to <= 40 bytes so that exhaustive enumeration is dominated by structure bytes",
+}
+
+// c10Run is the body shared by the four per-file-kind tests.
+func c10Run(t *testing.T, kind string, quick, thorough int) {
 	if p := os.Getenv("VERIF_REPLAY"); strings.HasSuffix(p, ".json") {
 		c10Replay(t, p)
 		return
 	}
-	rec := vh.NewRecorder("C10", "enumerate", "fault_enumeration", c10Rule,
-		"allocation requests above 256 MiB are refused by the harness' MemoryQuotaProvider (a corrupted 32-bit count otherwise becomes a multi-GiB allocation that the driver's address-space limit turns into a runtime abort unrelated to the parser)",
-		"table files and archives carry no checksum over their index: a corrupted address byte makes a stored chunk unreachable (reported absent) without any error; this is recorded as class silent_absent and is not a violation for those two file kinds; it is one for manifest and journal corruption, where acknowledged data must not vanish silently",
-		"IterateAllChunks reports (index address, content) pairs for integrity checkers to verify; a pair under a never-stored address is not counted, wrong bytes under a stored address are",
-		"journal: a corruption at offset o may only lose commits whose records end after o (torn-tail semantics, C03); losing an earlier acknowledged commit without an error is a violation",
-		"chunk payloads are cut to <= 40 bytes so that exhaustive enumeration is dominated by structure bytes")
+	rec := vh.NewRecorder("C10", kind, "fault_enumeration", c10Rule, c10Assumptions...)
 	defer rec.Write(t)
 	exhaustive := true
-	ncases := vh.N(3, 8)
+	ncases := vh.N(quick, thorough)
 	total := 0
 	vh.Check(t, "stores", ncases, ncases, func(rt *rapid.T) {
 		if total > 0 {
@@ -758,53 +776,56 @@ func TestVerif_C10(t *testing.T) {
 		}
 		base, rm := vh.ScratchDir(rt, "c10-")
 		defer rm()
-		// local store: table file, archive, manifest
-		c, tableName, archiveName := c10BuildLocal(rt, filepath.Join(mkdir(rt, base, "build-local")))
-		files, err := c10ReadDir(filepath.Join(base, "build-local"))
+		var c *c10Case
+		if kind == "journal" {
+			jc, jname := c10BuildJournal(rt, mkdir(rt, base, "build"))
+			jc.Target = jname
+			c = jc
+		} else {
+			lc, tableName, archiveName := c10BuildLocal(rt, mkdir(rt, base, "build"))
+			switch kind {
+			case "table":
+				lc.Target = tableName
+			case "archive":
+				lc.Target = archiveName
+			default:
+				lc.Target = manifestFileName
+			}
+			c = lc
+		}
+		if c.Target == "" {
+			return
+		}
+		c.Kind = kind
+		files, err := c10ReadDir(filepath.Join(base, "build"))
 		if err != nil {
 			vh.Inconclusive(rt, "read dir: %v", err)
 		}
 		c.Files = files
-		id := c10Digest(c)
-		targets := [][2]string{{tableName, "table"}, {manifestFileName, "manifest"}}
-		if archiveName != "" {
-			targets = append(targets, [2]string{archiveName, "archive"})
-		}
-		for _, tk := range targets {
-			cc := *c
-			cc.Target, cc.Kind = tk[0], tk[1]
-			e, err := c10NewEnv(&cc, filepath.Join(base, "run-"+tk[1]))
-			if err != nil {
-				vh.Inconclusive(rt, "env: %v", err)
-			}
-			if len(e.files[cc.Target]) > 4096 {
-				exhaustive = false
-			}
-			total += e.enumerate(rt, t, rec, id)
-		}
-		// journal store
-		jc, jname := c10BuildJournal(rt, mkdir(rt, base, "build-journal"))
-		jfiles, err := c10ReadDir(filepath.Join(base, "build-journal"))
-		if err != nil {
-			vh.Inconclusive(rt, "read dir: %v", err)
-		}
-		jc.Files = jfiles
-		jc.Target, jc.Kind = jname, "journal"
-		je, err := c10NewEnv(jc, filepath.Join(base, "run-journal"))
+		e, err := c10NewEnv(c, filepath.Join(base, "run"))
 		if err != nil {
 			vh.Inconclusive(rt, "env: %v", err)
 		}
-		if len(je.files[jname]) > 4096 {
+		if len(e.files[c.Target]) > 4096 {
 			exhaustive = false
 		}
-		total += je.enumerate(rt, t, rec, c10Digest(jc))
+		t0 := time.Now()
+		total += e.enumerate(rt, t, rec, c10Digest(c))
+		t.Logf("%s: %d bytes enumerated in %v", kind, len(e.files[c.Target]), time.Since(t0))
 	})
 	rec.Exhaustive(exhaustive)
 	c10KnownSeen.Range(func(k, v any) bool {
-		vh.ReportKnown("C10", k.(string), strings.SplitN(v.(string), "\n", 2)[0])
+		if strings.HasPrefix(k.(string), "C10-"+kind) {
+			vh.ReportKnown("C10", k.(string), strings.SplitN(v.(string), "\n", 2)[0])
+		}
 		return true
 	})
 }
+
+func TestVerif_C10_table(t *testing.T)    { c10Run(t, "table", 3, 10) }
+func TestVerif_C10_archive(t *testing.T)  { c10Run(t, "archive", 2, 8) }
+func TestVerif_C10_manifest(t *testing.T) { c10Run(t, "manifest", 3, 12) }
+func TestVerif_C10_journal(t *testing.T)  { c10Run(t, "journal", 2, 8) }
 
 func mkdir(rt *rapid.T, base, name string) string {
 	d := filepath.Join(base, name)
